@@ -22,3 +22,22 @@ class My_Cls:  # noqa: N801  (underscore inside the class name)
 
     def __secret(self) -> int:  # reported by inspect.getmembers as _My_Cls__secret
         return 1
+
+
+class _Node:  # class names with leading underscores: the mangling strips them (_Node.__link -> _Node__link)
+    def __init__(self) -> None:
+        self.n = 0
+
+    def walk(self) -> int:
+        return 1
+
+    def __link(self) -> int:
+        return 2
+
+
+class __Hidden:  # noqa: N801
+    def __step(self) -> int:
+        return 3
+
+    def go(self) -> int:
+        return 4
